@@ -163,7 +163,7 @@ def same(expected, observed):
 # generation
 # ---------------------------------------------------------------------------------------------
 SETTINGS_ROOT = [None, True, "APP", False]
-SETTINGS_MID = [None, True, "P1", False]
+SETTINGS_MID = [None, True, "p1", False]     # a named prefix is used as written
 SETTINGS_FIELD = [None, True, "FV", False]
 MIDKEYS = ["a", "b", "c", "d", "e", "m"]
 
@@ -215,8 +215,10 @@ def make_case(tree, path, kname, envstate, ops, style, tag, with_decoys=True):
     kind, default, valid, invalid, v1, v2, v3, bad = KIND_DATA[kname]
     exp = bound(expected_names(tree)[".".join(path)])
     environ = {}
+    if envstate == "valid2":      # a valid variable whose validated value is falsy
+        valid = {"int": "0", "bool": "off"}.get(kname, valid)
     if with_decoys:
-        environ.update(decoys(path, exp, invalid if envstate in ("unset", "empty", "valid") else valid))
+        environ.update(decoys(path, exp, invalid if envstate != "invalid" else valid))
     # siblings must stay untouched by the decoys
     others = {bound(v) for k, v in expected_names(tree).items() if k != ".".join(path)}
     for o in others:
@@ -225,7 +227,7 @@ def make_case(tree, path, kname, envstate, ops, style, tag, with_decoys=True):
     if exp:
         if envstate == "empty":
             environ[exp] = ""
-        elif envstate == "valid":
+        elif envstate in ("valid", "valid2"):
             environ[exp] = valid
         elif envstate == "invalid":
             environ[exp] = invalid
@@ -238,18 +240,20 @@ def make_case(tree, path, kname, envstate, ops, style, tag, with_decoys=True):
 def std_ops(kname, depth):
     kind, default, valid, invalid, v1, v2, v3, bad = KIND_DATA[kname]
     return [["build"], ["load", depth, v1], ["assign", v2], ["load", depth, v3], ["load", depth - 1, None],
-            ["assign", v2], ["assign", bad], ["load", depth, bad], ["reset"], ["load", depth, v1], ["build"]]
+            ["assign", v2], ["assign", bad], ["load", depth, bad], ["load", depth, None], ["reset"],
+            ["load", depth, v1], ["build"]]
 
 
 def generate(rng, tier):
     cases = []
     states = ["unset", "empty", "valid", "invalid"]
+    states1 = states + ["valid2"]
     styles = ["attr", "explicit", "item"]
     n = 0
     # depth 1: 4 x 4 settings x 4 environments x every class
     for r in SETTINGS_ROOT:
         for f in SETTINGS_FIELD:
-            for st in states:
+            for st in states1:
                 for kname in KIND_DATA:
                     tree, path = path_tree(r, [], f)
                     cases.append(make_case(tree, path, kname, st, std_ops(kname, 1), styles[n % 3], "matrix1"))
